@@ -224,6 +224,8 @@ impl<'a> Emit<'a> {
                     // acos u = 0 <=> u = 1 ; = PI <=> u = -1
                     self.ax.push(format!("(= (= {} 0.0) (= cs.{} 1.0))", phi, k));
                     self.ax.push(format!("(= (= {} PI) (= cs.{} (- 1.0)))", phi, k));
+                    // acos is decreasing: u >= 0 <=> acos u <= PI/2
+                    self.ax.push(format!("(= (>= cs.{} 0.0) (<= (* 2.0 {}) PI))", k, phi));
                     (phi, 0)
                 }
                 "floor" | "ceil" | "trunc" | "round" => {
